@@ -35,7 +35,13 @@ RULE = (
     "the same typed value, and after a rejected one the view is unchanged.  Every history runs next to 1-3 bystander records (same "
     "descriptor; another descriptor with the same field types) holding ordinary values (False / True / 0 / '' / [] / small ints): their "
     "deep observation, packed bytes and repr, taken when they were built, are compared after EVERY operation on the focus record.  "
-    "'dtroute' cases offer values that already are instances of fieldtypes.datetime, obtained from 29 constructor routes (field-wise, "
+    "'inputtypes' cases offer unusual but plausible input types (bytearray, memoryviews incl. sliced / released, array.array, str / bytes / float "
+    "subclasses, IntEnum, Decimal / Fraction, pathlib / ipaddress / uuid objects, date / time, os.PathLike; tuple / generator / set / frozenset / "
+    "dict views / deque / map for T[] fields) to every field type: accepted => typed, serialisable by stream and JSON, hashable, and decoupled "
+    "from the caller's object (the input buffer is modified / released afterwards and the record re-observed incl. its packed bytes).  'cold' "
+    "cases run a child interpreter per field type that imports only RecordDescriptor and serialises ordinary records by JSON packer, stream "
+    "packer and the stream / jsonfile / csvfile / line / text / sqlite writers in a seeded order; outcome and output of every step must equal "
+    "those of the same job in the warm parent.  'dtroute' cases offer values that already are instances of fieldtypes.datetime, obtained from 29 constructor routes (field-wise, "
     "strptime, combine, fromisoformat, fromtimestamp, utcnow / now / today, fromordinal, fromisocalendar, replace, arithmetic, astimezone, copy, "
     "pickle, min / max), to datetime and datetime[] fields: accepted => timezone aware, serialisable by the stream and the JSON packer and read "
     "back equal.  'jsonfloat' cases put nan / inf / -inf (also from text, also inside float[]) through JsonRecordPacker, JsonfileWriter and "
@@ -125,6 +131,10 @@ KEY_DT_REPLACE = "datetime-replace-tzinfo-none-stored-naive"
 DT_ROUTES = ["fieldwise", "fieldwise_us", "fieldwise_tzinfo_none", "fieldwise_aware", "strptime", "strptime_tz", "combine", "combine_aware", "fromisoformat",
              "fromisoformat_tz", "fromtimestamp", "fromtimestamp_tz", "utcfromtimestamp", "utcnow", "now", "now_tz", "today", "fromordinal", "fromisocalendar",
              "replace_tzinfo_none", "replace_year", "min", "max", "plus_timedelta", "astimezone", "copy", "pickle", "from_std_naive", "from_text"]
+# field types offered unusual input types (stringlist / dictlist hold arbitrary elements, record is the pass-through type: left out)
+INPUT_TYPES = [t for t in cands.TYPES if t not in ("stringlist", "dictlist", "record", "record[]")]
+KEY_UINT_RAW = "unsigned-int-keeps-non-int-argument"
+KEY_ALIAS_INPUT = "field-value-aliases-callers-buffer"
 DECODE_KINDS = ["digest", "digest[]", "grouped-digest", "uint16", "uint32", "boolean", "net.ipaddress", "net.ipnetwork"]
 ALIAS_TYPES = ["digest"] + [t + "[]" for t in gen.LIST_ELEM_TYPES]
 
@@ -155,6 +165,16 @@ def generate(ctx):
         if ctx.mine(idx + 5):
             yield {"k": "locale", "env": e}
         idx += 1
+    for rep in range(ctx.scale(1, 4)):
+        for t in cands.TYPES:
+            if ctx.mine(idx):
+                yield {"k": "cold", "t": t, "s": subseed("c05", ctx.seed, "cold", t, rep)}
+            idx += 1
+    for rep in range(ctx.scale(2, 16)):
+        for t in INPUT_TYPES:
+            if ctx.mine(idx):
+                yield {"k": "inputtypes", "t": t, "s": subseed("c05", ctx.seed, "inputtypes", t, rep)}
+            idx += 1
     for rep in range(ctx.scale(2, 20)):
         for route in DT_ROUTES:
             if ctx.mine(idx):
@@ -220,6 +240,34 @@ def digest_bins(r, depth=0):
             elif isinstance(x, base.Record) and depth < 4:
                 out.append([k, digest_bins(x, depth + 1)])
     return out
+
+
+def secondary_state(r, depth=0):
+    """unsigned integers and booleans carry their packed form in `.value`: it must be an int (a bool for boolean) equal to the
+    value itself - no float / Decimal / raw-argument hybrids.  -> description of the first disagreement or None"""
+    import flow.record.base as base
+    import flow.record.fieldtypes as ft
+
+    if isinstance(r, base.GroupedRecord):
+        for m in r.records:
+            w = secondary_state(m, depth + 1)
+            if w:
+                return w
+        return None
+    for k in r.__slots__:
+        v = getattr(r, k)
+        for x in v if isinstance(v, list) else [v]:
+            if isinstance(x, (ft.uint16, ft.uint32)):
+                if type(x.value) is not int or x.value != int(x):
+                    return "unsigned field %s: int() is %r but .value is %s %r" % (k, int(x), type(x.value).__name__, x.value)
+            elif isinstance(x, ft.boolean):
+                if type(x.value) is not bool or int(x.value) != int(x):
+                    return "boolean field %s: int() is %r but .value is %s %r" % (k, int(x), type(x.value).__name__, x.value)
+            elif isinstance(x, base.Record) and depth < 4:
+                w = secondary_state(x, depth + 1)
+                if w:
+                    return w
+    return None
 
 
 def snapshot(r):
@@ -523,6 +571,10 @@ class Hist:
             ctx.event("typed_checked")
         except observe.Untyped as e:
             ctx.violation(key_hint, "untyped slot after %s" % op, detail=self.detail(op, used, error=str(e)))
+        why = secondary_state(rec)
+        if why:
+            ctx.violation(KEY_UINT_RAW if "unsigned" in why else key_hint, "the packed (secondary) state of an integer-like value disagrees with the value itself",
+                          detail=self.detail(op, used, why=why))
         if op != "digest_attr":
             for n, c in used:
                 if c.conv is None:
@@ -746,6 +798,32 @@ class Hist:
                           detail=self.detail("json pack", [], exception=repr(e)[:300], record=_safe_obs(r)))
 
     def classify_pack_failure(self, r, exc):
+        key = self.classify_uint_raw(r)
+        if key:
+            return key
+        return self.classify_lone_surrogate(r, exc)
+
+    def classify_uint_raw(self, r):
+        """unsigned-int-keeps-non-int-argument: an unsigned field (uint16 / uint32 / port, scalar or list element) accepted an
+        in-range Decimal / Fraction and kept it as its packed value; the same record with those slots emptied serialises."""
+        import flow.record.fieldtypes as ft
+        from flow.record import RecordPacker
+
+        try:
+            bad = []
+            for k in r.__slots__:
+                v = getattr(r, k)
+                for x in v if isinstance(v, list) else [v]:
+                    if isinstance(x, (ft.uint16, ft.uint32)) and not isinstance(x.value, int) and type(x.value).__name__ in ("Decimal", "Fraction"):
+                        bad.append(k)
+            if not bad:
+                return None
+            RecordPacker().pack(type(r)(*[None if k in bad else getattr(r, k) for k in r.__slots__]))
+            return KEY_UINT_RAW
+        except Exception:  # noqa: BLE001
+            return None
+
+    def classify_lone_surrogate(self, r, exc):
         """lone-surrogate-unserialisable: the failure is a UnicodeEncodeError, a string-like slot holds text with a surrogate
         outside U+DC80..DCFF, and the same record without exactly those slots serialises."""
         from flow.record import RecordPacker
@@ -1215,6 +1293,264 @@ def run_decode(ctx, case):
     ctx.sample({"case": case, "variants": [v[0] for v in variants]}, kind="decode:" + what)
 
 
+# ---- unusual but plausible input TYPES ------------------------------------------------------------------------
+def unusual_inputs(rng):
+    """[(label, value, mutator-or-None)]: `mutator()` changes / releases the caller's object after it was handed over"""
+    import array
+    import collections
+    import decimal
+    import enum
+    import fractions
+    import ipaddress
+    import pathlib
+    import uuid
+
+    class StrSub(str):
+        pass
+
+    class BytesSub(bytes):
+        pass
+
+    class FloatSub(float):
+        pass
+
+    class Level(enum.IntEnum):
+        LOW = 1
+        HTTP = 80
+
+    class PathLike:
+        def __fspath__(self):
+            return "/path/like"
+
+    out = []
+    content = bytes(rng.randrange(1, 256) for _ in range(rng.randint(2, 8)))
+
+    def ba():
+        b = bytearray(content)
+
+        def mutate():
+            b[0] ^= 0xFF
+            b.extend(b"tail")
+
+        return b, mutate
+
+    def mv_of_bytearray():
+        b = bytearray(content)
+        m = memoryview(b)
+
+        def mutate():
+            b[0] ^= 0xFF
+            m.release()
+
+        return m, mutate
+
+    def mv_plain():
+        m = memoryview(content)
+        return m, m.release
+
+    def mv_slice():
+        b = bytearray(b"x" + content + b"y")
+        m = memoryview(b)[1:-1]
+
+        def mutate():
+            b[1] ^= 0xFF
+            m.release()
+
+        return m, mutate
+
+    def mv_released():
+        m = memoryview(content)
+        m.release()
+        return m, None
+
+    def arr():
+        a = array.array("B", content)
+
+        def mutate():
+            a[0] ^= 0xFF
+
+        return a, mutate
+
+    for label, mk in (("bytearray", ba), ("memoryview-of-bytearray", mv_of_bytearray), ("memoryview", mv_plain), ("memoryview-slice", mv_slice), ("memoryview-released", mv_released),
+                      ("array.array", arr)):
+        v, m = mk()
+        out.append((label, v, m))
+    plain = [
+        ("bytes-subclass", BytesSub(content)), ("str-subclass", StrSub("1.2.3.4")), ("str-subclass-text", StrSub("some text")), ("IntEnum", Level.HTTP), ("bool", True),
+        ("float-subclass", FloatSub(1.0)), ("Decimal-integral", decimal.Decimal(80)), ("Decimal-fractional", decimal.Decimal("1.5")), ("Fraction-integral", fractions.Fraction(80)),
+        ("Fraction", fractions.Fraction(3, 2)), ("PurePosixPath", pathlib.PurePosixPath("/a/b")), ("PureWindowsPath", pathlib.PureWindowsPath("c:/a")), ("date", _dt.date(2020, 1, 2)),
+        ("time", _dt.time(1, 2, 3)), ("os.PathLike", PathLike()), ("IPv4Address", ipaddress.IPv4Address("1.2.3.4")), ("IPv6Address", ipaddress.ip_address("::1")),
+        ("IPv4Network", ipaddress.ip_network("10.0.0.0/8")), ("IPv4Interface", ipaddress.ip_interface("10.0.0.1/8")), ("UUID", uuid.UUID(int=rng.getrandbits(128))), ("complex", 1 + 0j),
+        ("namedtuple", collections.namedtuple("N", "a b c")(None, None, None)), ("deque", collections.deque([1])), ("range", range(2)),
+    ]
+    out += [(label, v, None) for label, v in plain]
+    return out
+
+
+LIST_CONTAINERS = ["tuple", "generator", "set", "frozenset", "dict_keys", "dict_values", "deque", "map"]
+
+
+def in_container(kind, elem):
+    import collections
+
+    if kind == "tuple":
+        return (elem,)
+    if kind == "generator":
+        return (x for x in [elem])
+    if kind == "set":
+        return {elem}
+    if kind == "frozenset":
+        return frozenset([elem])
+    if kind == "dict_keys":
+        return {elem: 1}.keys()
+    if kind == "dict_values":
+        return {1: elem}.values()
+    if kind == "deque":
+        return collections.deque([elem])
+    return map(lambda x: x, [elem])
+
+
+def record_views(r):
+    """everything that must not change when the caller's input object is modified afterwards: observation, stream bytes, JSON text"""
+    from flow.record import JsonRecordPacker, RecordPacker
+
+    return [observe.obs(r), digest_bins(r), RecordPacker().pack(r).hex(), JsonRecordPacker().pack(r)]
+
+
+def run_inputtypes(ctx, case):
+    """Unusual but plausible input types (buffers, subclasses, enums, Decimal / Fraction, pathlib / ipaddress / uuid objects, dates;
+    containers other than list for T[] fields) offered to one field type.  Whether they are accepted is left open (except: a bytes
+    subclass is bytes, pathlib paths are paths); accepted => typed slot, serialisable (stream and JSON), the record can be hashed, and
+    the held value is decoupled from the caller's object: modifying / releasing the input afterwards changes nothing."""
+    rng = random.Random(case["s"])
+    t = case["t"]
+    is_list = t.endswith("[]")
+    base_t = t[:-2] if is_list else t
+    h = Hist(ctx, case, rng, t, nfields=rng.choice([1, 2]))
+    h.start()
+    ops = ["assign", "ctor_kwargs", "ctor_args", "replace", "from_dict", "group_assign"]
+    no_json = any(ft_.startswith("net.ipv4.") for ft_, _ in h.fields)
+    for label, value, mutate in unusual_inputs(rng):
+        exp, conv = "open", None
+        if label == "bytes-subclass" and base_t == "bytes":
+            exp, conv = "accept", ("bytes", bytes(value))
+        if label in ("PurePosixPath", "PureWindowsPath") and base_t == "path":
+            exp = "accept"
+        if is_list:
+            valid = [c for c in h.pool(base_t) if c.exp == "accept"]
+            value = [rng.choice(valid).fresh(), value] if valid and rng.random() < 0.5 else [value]
+            conv = ("list", [None] * (len(value) - 1) + [conv]) if conv else None
+        c = cands.Cand(value, exp, "input:" + label, conv)
+        ok, _ = h.do(rng.choice(ops), h.focus, c)
+        ctx.cell(t, "input:" + label, "accepted" if ok else "raised")
+        if not ok:
+            continue
+        ctx.event("inputtypes_accepted")
+        rec = h.cur
+        info = h.detail("inputtypes", [(h.focus, c)])
+        try:
+            hash(rec)
+            ctx.event("inputtypes_hash_checked")
+        except Exception as e:  # noqa: BLE001
+            ctx.violation(KEY_ALIAS_INPUT if mutate or "memoryview" in label else None, "a record that accepted an unusual input value cannot be hashed", detail=dict(info, exception=repr(e)[:200]))
+        if mutate is not None and not no_json:
+            try:
+                before = record_views(rec)
+            except Exception as e:  # noqa: BLE001
+                ctx.violation(h.classify_pack_failure(rec, e), "a record that accepted an unusual input value cannot be observed / serialised", detail=dict(info, exception=repr(e)[:200]))
+                continue
+            mutate()
+            ctx.event("inputtypes_decoupling_checked")
+            try:
+                after = record_views(rec)
+            except Exception as e:  # noqa: BLE001
+                ctx.violation(KEY_ALIAS_INPUT, "after the caller modified / released its input object the record can no longer be observed / serialised",
+                              detail=dict(info, exception=repr(e)[:200]))
+                continue
+            if after != before:
+                what = [n for n, x, y in zip(("observation", "digest bytes", "stream bytes", "JSON text"), after, before) if x != y]
+                ctx.violation(KEY_ALIAS_INPUT, "the record changed (%s) when the caller modified its input object after handing it over" % ", ".join(what),
+                              detail=dict(info, stream_before=before[2][:120], stream_after=after[2][:120]))
+        h.end()  # serialisable while it holds the value
+    if is_list:
+        valid = [c for c in h.pool(base_t) if c.exp == "accept" and c.kind != "none"]
+        for kind in LIST_CONTAINERS:
+            elem = rng.choice(valid).fresh()
+            try:
+                value = in_container(kind, elem)
+            except TypeError:  # unhashable element for set / dict views
+                ctx.event("inputtypes_container_not_buildable")
+                continue
+            c = cands.Cand(value, "open", "container:" + kind, None)
+            ok, _ = h.do(rng.choice(["assign", "ctor_kwargs", "replace", "from_dict"]), h.focus, c)
+            ctx.cell(t, "container:" + kind, "accepted" if ok else "raised")
+            if ok:
+                ctx.event("inputtypes_accepted")
+                h.end()
+    h.end()
+    ctx.sample({"case": case, "descriptor": [h.desc.name, h.fields], "operations": h.log[:8]}, kind="inputtypes:" + ("list" if is_list else "scalar"))
+
+
+# ---- cold process: one field type, nothing else imported ----------------------------------------------------------
+def run_cold(ctx, case):
+    """A child interpreter imports only `from flow.record import RecordDescriptor`, builds ONE record type with one field of the
+    given type and serialises a few ordinary records by the JSON packer, the stream packer and every writer adapter that needs no
+    third-party module (stream file, jsonfile, csvfile, line, text, sqlite), in a seeded order.  The same job runs in this (warm)
+    interpreter: outcome and output of every step must be the same.  A failing / slow child is inconclusive, never a verdict."""
+    from .. import child_c05
+
+    rng = random.Random(case["s"])
+    t = case["t"]
+    order = ["json", "stream"] + [w for w, _ in child_c05.WRITERS]
+    rng.shuffle(order)
+    n = ctx.evaluations
+    dirs = []
+    for who in ("warm", "cold"):
+        d = os.path.join(ctx.state["tmp"], "%s-%d-%d" % (who, n, rng.randrange(10**6)))
+        os.makedirs(d)
+        dirs.append(d)
+    job = {"type": t, "seed": case["s"], "order": order}
+    env = dict(os.environ)
+    pp = env.get("PYTHONPATH", "")
+    if VERIF_DIR not in pp.split(os.pathsep):
+        env["PYTHONPATH"] = VERIF_DIR + (os.pathsep + pp if pp else "")
+    env.setdefault("PYTHONHASHSEED", "0")
+    try:
+        p = subprocess.run([sys.executable, "-W", "ignore", "-m", "verif.child_c05"], input=json.dumps(dict(job, dir=dirs[1])), env=env, cwd=VERIF_DIR, capture_output=True,
+                           text=True, timeout=WORKER_TIMEOUT_S)
+    except subprocess.TimeoutExpired:
+        ctx.require(False, "a C05 cold-process child exceeded its %d s watchdog" % WORKER_TIMEOUT_S)
+        return
+    ctx.event("cold_children_run")
+    line = next((ln for ln in p.stdout.splitlines() if ln.startswith("C05CHILD ")), None)
+    if p.returncode != 0 or line is None:
+        ctx.require(False, "a C05 cold-process child failed (exit %s): %s" % (p.returncode, p.stderr[-400:]))
+        return
+    cold = json.loads(line[len("C05CHILD "):])
+    repo = os.path.realpath(os.environ.get("VERIF_REPO", "/repo"))
+    ctx.require(os.path.realpath(cold["flow_record_file"]).startswith(repo + os.sep), "C05 cold child imported flow.record from %s, not from %s" % (cold["flow_record_file"], repo))
+    warm = child_c05.run_job(dict(job, dir=dirs[0]))
+    ctx.note_add("cold_children_with_net_modules_preloaded", 1 if cold.get("net_modules_at_start") else 0)
+    info = {"case": case, "order": order, "net_modules_loaded_in_child_at_start": cold.get("net_modules_at_start")}
+    if len(cold["steps"]) != len(warm["steps"]):
+        ctx.violation("cold-process-outcome-differs", "the cold child stopped at another step than the warm run", detail=dict(info, cold=[s_[:2] for s_ in cold["steps"]], warm=[s_[:2] for s_ in warm["steps"]]))
+        return
+    for cs, ws in zip(cold["steps"], warm["steps"]):
+        ctx.ev()
+        ctx.event("cold_steps_compared")
+        ctx.cell("cold", t, cs[0])
+        ctx.nontrivial("cold", t, cs[0], case["s"])
+        if cs[:2] != ws[:2]:
+            ctx.violation("cold-process-outcome-differs", "serialising a record of one field type in a fresh interpreter has another outcome than in a warm one (%s)" % cs[0],
+                          detail=dict(info, step=cs[0], cold=cs[1], warm=ws[1]))
+        elif json.loads(json.dumps(cs[2])) != json.loads(json.dumps(ws[2])):
+            ctx.violation("cold-process-outcome-differs", "a fresh interpreter serialises a record differently from a warm one (%s)" % cs[0],
+                          detail=dict(info, step=cs[0], cold=str(cs[2])[:300], warm=str(ws[2])[:300]))
+    ok_steps = [s_[0] for s_ in warm["steps"] if s_[1] == "ok"]
+    ctx.event("cold_steps_ok_in_warm", len(ok_steps))
+    ctx.sample({"case": case, "order": order, "steps": [s_[:2] for s_ in cold["steps"]]}, kind="cold:" + ("list" if t.endswith("[]") else "scalar"))
+
+
 def run_locale(ctx, case):
     """bytes -> text must not depend on the locale / interpreter text configuration: the same sweep (verif/worker_c05.sweep) runs in
     a worker process under the given environment and in this process; valid UTF-8 must come out as the decoded text, invalid
@@ -1554,7 +1890,11 @@ def run_alias(ctx, case):
 
 def execute(ctx, case):
     k = case["k"]
-    if k == "dtroute":
+    if k == "cold":
+        run_cold(ctx, case)
+    elif k == "inputtypes":
+        run_inputtypes(ctx, case)
+    elif k == "dtroute":
         run_dtroute(ctx, case)
     elif k == "jsonfloat":
         run_jsonfloat(ctx, case)
@@ -1595,6 +1935,10 @@ def finish(ctx):
     ctx.require(ev.get("alias_identity_checked", 0) > 0, "the default-object identity check never ran")
     ctx.require(ev.get("history_consistency_checked", 0) > 0, "the history-independence monitor never ran")
     ctx.require(ev.get("json_pack_checked", 0) > 0, "the JSON serialisation check never ran")
+    if any(c.startswith("cold/") for c in ctx.cells):
+        ctx.require(ev.get("cold_steps_ok_in_warm", 0) > 0, "the cold-process family compared no successfully serialised step")
+    if any("/input:" in c for c in ctx.cells):
+        ctx.require(ev.get("inputtypes_accepted", 0) > 0, "the unusual-input family saw no accepted value")
     for fam, counter in (("dtroute", "dtroute_accepted"), ("jsonfloat", "jsonfloat_records_with_nonfinite"), ("decode", "decode:malformed/refused")):
         if any(c.startswith(fam + "/") for c in ctx.cells):
             ctx.require(ev.get(counter, 0) > 0, "the '%s' family ran without its deciding counter %s" % (fam, counter))
